@@ -231,9 +231,8 @@ func (kt *Keytab) Unmarshal(b []byte) error {
 	}
 	for l != 0 {
 		if l < 0 {
-			//Zero padded so skip over
-			l = l * -1
-			n = n + int(l)
+			//Zero padded so skip over (negate after widening: -l overflows int32 for l == math.MinInt32)
+			n = n - int(l)
 		} else {
 			if n < 0 {
 				return fmt.Errorf("%d can't be less than zero", n)
